@@ -115,8 +115,11 @@ def decide(name, assumptions, bad, vars_, logic='QF_BV', all_sat=False, max_mode
     v.solver_s = time.time() - t0
     if second and v.result in ('unsat', 'sat'):
         first = 'unsat' if not v.models else 'sat'
+        import concurrent.futures as cf
+        with cf.ThreadPoolExecutor(max_workers=len(second)) as pool:
+            futs = {name2: pool.submit(run_external, name2, v.smt2, second_timeout_s, workdir) for name2 in second}
         for name2 in second:
-            r2 = run_external(name2, v.smt2, second_timeout_s, workdir)
+            r2 = futs[name2].result()
             v.second[name2] = r2
             if r2 in ('sat', 'unsat') and r2 != first:
                 v.result = 'inconclusive'
